@@ -177,7 +177,7 @@ class Exec:
         self.world = {}
         self.fresh_n = 0
         self.unknown_seen = False
-        self.proved_inb = set()
+        self.proved_inb = {}   # key -> term (keeps the term alive so that its AST id is not recycled)
         self.cur_instr = None
         self.ninstr = 0
         self.notes = []
@@ -426,7 +426,7 @@ class Exec:
                 inb = z3.ULE(off, z3.BitVecVal(o.size - nbytes, 64))
                 if not self.decide(inb, 'oob'):
                     raise PathEnd('oob', obj=o.name, off=str(off), nbytes=nbytes, store=is_store, **self._site_info())
-                self.proved_inb.add(key)
+                self.proved_inb[key] = off
         if o.guard is not None:
             g = o.guard(self, off, nbytes, is_store)
             if g is not None and g is not True:
@@ -702,7 +702,7 @@ class Exec:
                 if key not in self.proved_inb:
                     if not self.decide(z3.ULE(off, z3.BitVecVal(sz, 64)), 'oob-gep'):
                         raise PathEnd('oob-gep', obj=base.obj.name, off=str(off), **self._site_info())
-                    self.proved_inb.add(key)
+                    self.proved_inb[key] = off
         return r
 
     def _scaled(self, off, iv, iw, stride):
